@@ -10,7 +10,7 @@ fn sink(c: C) -> C {
 pub const FUNCTIONS: [&str; 10] = ["filter", "any", "map", "min", "max", "min_by_key", "max_by_key", "sorted", "sorted_by_key", "to_array"];
 
 fn value_alphabet() -> Vec<C> {
-    vec![C::Nil, int(0), int(1), C::Float(1.0), int(2), s("a"), s("bb"), C::CreateTable]
+    vec![C::Nil, int(0), int(1), C::Float(1.0), int(2), s("a"), s("bb"), C::CreateTable, C::Float(-0.0)]
 }
 
 /// callbacks for filter / any / map: parameters declared (k, v, i)
